@@ -673,6 +673,9 @@ class AgainTask (Task):
 
     try:
       nxt = g.send(None)
+    except StopIteration:
+      # Function ended without yielding anything: it returns None
+      pass
     except Exception:
       parent.task.re = sys.exc_info()
     else:
